@@ -232,6 +232,18 @@ class _Run:
                     elif rv:
                         self.violate("C10.4", "click-outside-rows-accepted", f"step {i}: ({x},{y}) rows {len(trans)}")
                         return False
+                if self.plain_grid(before_text):
+                    # geometry written down without urwid's layout code: wrap='any' puts character k of an ASCII text at
+                    # cell (k mod w, k div w), so a click on (x, y) inside the text rows lands on offset y*w + x
+                    w_, ln = self.maxcol, len(before_text)
+                    # (with the cursor at the end of a text that fills its last row urwid shifts that row to keep the
+                    # cursor visible: left open, like the cursor cell in that state)
+                    if y < max(1, -(-ln // w_)) and not (before_pos == ln and ln and ln % w_ == 0):
+                        want = min(y * w_ + x, ln)
+                        if not rv or e.edit_pos != want:
+                            self.violate("C10.4", "click-put-cursor-on-another-character (grid model) wrap=any", f"step {i}: click ({x},{y}) width {w_} text {before_text!r}: cursor at {e.edit_pos}, expected {want}")
+                            return False
+                        res.probe("click_checked_against_grid_model")
                 self.m_text, self.m_pos = e.edit_text, e.edit_pos
                 self.m_pref = (x, self.maxcol) if rv else self.m_pref
                 self.last_render = None
@@ -249,6 +261,13 @@ class _Run:
                         return False
                     if not self.check_cursor_cell(i, canv, e, self.maxcol, cfg):
                         return False
+                    if self.plain_grid(e.edit_text):
+                        w_, ln, ps = self.maxcol, len(e.edit_text), e.edit_pos
+                        if not (ps == ln and ln and ln % w_ == 0):  # (end of a text that fills its last row: left open)
+                            if tuple(canv.cursor) != (ps % w_, ps // w_):
+                                self.violate("C10.3", "cursor-not-at-the-grid-cell-of-the-offset wrap=any", f"step {i}: width {w_} text {e.edit_text!r} pos {ps}: cursor {canv.cursor}, expected {(ps % w_, ps // w_)}")
+                                return False
+                            res.probe("cursor_checked_against_grid_model")
                 elif canv.cursor is not None:
                     self.violate("C10.3", "cursor-drawn-without-focus", f"step {i}")
                     return False
@@ -526,6 +545,21 @@ class _Run:
             keep = pref if (pref is not None and pref[1] == maxcol) else (x, maxcol)
             return text, newpos, keep, True
         return text, pos, pref, False
+
+    def plain_grid(self, text) -> bool:
+        """The subset whose geometry needs no layout code: a str Edit without caption and mask, wrap='any', left
+        aligned, printable ASCII text without line breaks, at least two columns."""
+        cfg = self.scen["config"]
+        return (
+            cfg["kind"] == "edit"
+            and isinstance(text, str)
+            and not cfg.get("caption")
+            and cfg.get("mask") is None
+            and cfg.get("wrap") == "any"
+            and cfg.get("align", "left") == "left"
+            and self.maxcol >= 2
+            and all(32 <= ord(ch) < 127 for ch in text)
+        )
 
     # ------------------------------------------------------------------------------------
     def check_cursor_cell(self, i, canv, e, maxcol, cfg) -> bool:
